@@ -662,6 +662,9 @@ Proof. unfold lowerc. destruct ((65 <=? x) && (x <=? 90)) eqn:E; lia. Qed.
 Lemma lowerc_lt x : bad_char x = false -> lowerc x < 128.
 Proof. unfold bad_char, lowerc. destruct ((65 <=? x) && (x <=? 90)) eqn:E; lia. Qed.
 
+Lemma nth_lower i s : nth i (lower s) 0 = lowerc (nth i s 0).
+Proof. unfold lower. rewrite <- (map_nth lowerc s 0 i). reflexivity. Qed.
+
 Lemma decode_Some_facts s r : bech32_decode s = Some r ->
   existsb bad_char s = false /\ mixed_case s = false /\ bech32_decode_lower (lower s) = Some r
   /\ (length s <= MAXLEN)%nat.
@@ -682,25 +685,359 @@ Theorem single_subst s r p i c :
   \/ (lowerc c = lowerc (nth i s 0) /\ bech32_decode (subst i c s) = Some r).
 Proof.
   intros H Hp Hi Hc Hne. destruct (decode_Some_facts s r H) as (Hb & Hm & Hl & _).
-  unfold bech32_decode at 1 3.
+  unfold bech32_decode.
   destruct (existsb bad_char (subst i c s) || mixed_case (subst i c s)) eqn:G; [now left|].
   apply orb_false_iff in G as [G1 G2].
   assert (Bc : bad_char c = false).
   { rewrite existsb_false_Forall, Forall_forall in G1. apply G1. unfold subst. apply in_or_app. right. now left. }
   unfold lower. rewrite subst_map. fold (lower s).
   destruct (N.eq_dec (lowerc c) (lowerc (nth i s 0))) as [E|E].
-  - right. split; [assumption|]. rewrite E. change 0 with (lowerc 0) at 1. unfold lower. rewrite map_nth.
-    change (lowerc 0) with 0. fold (lower s). rewrite subst_same by (unfold lower; rewrite map_length; lia). exact Hl.
-  - left. apply (subst_lower_rejected (lower s) r i (lowerc c) p); try assumption.
-    + rewrite existsb_false_Forall in Hb. unfold lower. apply Forall_forall. intros x Hx.
-      apply in_map_iff in Hx as (y & <- & Hy). rewrite Forall_forall in Hb. now apply lowerc_lt, Hb.
-    + unfold lower. rewrite rfind_map_stable; [assumption | apply lowerc_49].
-    + unfold lower. now rewrite map_length.
-    + intros E'. now apply lowerc_49 in E'.
-    + unfold lower. change 0 with (lowerc 0). now rewrite map_nth.
+  - right. split; [assumption|]. rewrite E, <- nth_lower.
+    rewrite subst_same by (unfold lower; rewrite map_length; lia). exact Hl.
+  - left.
+    assert (A1 : Forall (fun x => x < 128) (lower s)).
+    { rewrite existsb_false_Forall in Hb. unfold lower. apply Forall_forall. intros x Hx.
+      apply in_map_iff in Hx as (y & <- & Hy). rewrite Forall_forall in Hb. now apply lowerc_lt, Hb. }
+    assert (A2 : rfind 49 (lower s) = Some p).
+    { unfold lower. rewrite rfind_map_stable; [assumption | apply lowerc_49]. }
+    assert (A3 : (p < i < length (lower s))%nat) by (unfold lower; now rewrite map_length).
+    assert (A4 : lowerc c <> 49) by (intros E'; apply (proj1 (lowerc_49 c)) in E'; contradiction).
+    assert (A5 : lowerc c <> nth i (lower s) 0) by (rewrite nth_lower; exact E).
+    exact (subst_lower_rejected (lower s) r i (lowerc c) p A1 Hl A2 A3 A4 A5).
 Qed.
 
 Example single_subst_nonvacuous :
   let s := codes "addr1v8xrqjtlfluk9axpmjj5enh0uw0cduwhz7txsqyl36m3ukgqdsn8w" in
   (exists r, bech32_decode s = Some r) /\ rfind 49 s = Some 4%nat /\ bech32_decode (subst 10 (nth 0 CHARSET 0) s) = None.
 Proof. vm_compute. split; [eexists; reflexivity | split; reflexivity]. Qed.
+
+(* ================================================================= D. convertbits *)
+(* bit-string view: w bits of v, most significant first *)
+Fixpoint bitsMSB (w : nat) (v : N) : list bool :=
+  match w with O => [] | S w' => N.testbit v (N.of_nat w') :: bitsMSB w' v end.
+Definition flatbits (w : nat) (l : list N) : list bool := flat_map (bitsMSB w) l.
+
+Lemma bitsMSB_length w v : length (bitsMSB w v) = w.
+Proof. induction w; cbn; [reflexivity | now rewrite IHw]. Qed.
+Lemma flatbits_length w l : length (flatbits w l) = (w * length l)%nat.
+Proof.
+  induction l as [|x l IH]; cbn; [lia|]. rewrite app_length, bitsMSB_length. fold (flatbits w l). rewrite IH. lia.
+Qed.
+Lemma flatbits_app w a b : flatbits w (a ++ b) = flatbits w a ++ flatbits w b.
+Proof. apply flat_map_app. Qed.
+Lemma bitsMSB_ext w u v :
+  (forall i, (i < w)%nat -> N.testbit u (N.of_nat i) = N.testbit v (N.of_nat i)) -> bitsMSB w u = bitsMSB w v.
+Proof.
+  induction w as [|w IH]; intros H; cbn; [reflexivity|]. rewrite H by lia. f_equal. apply IH. intros. apply H. lia.
+Qed.
+Lemma bitsMSB_eq_bits w u v : bitsMSB w u = bitsMSB w v ->
+  forall i, (i < w)%nat -> N.testbit u (N.of_nat i) = N.testbit v (N.of_nat i).
+Proof.
+  induction w as [|w IH]; intros H i Hi; [lia|]. cbn in H. injection H as H0 H.
+  destruct (Nat.eq_dec i w) as [->|]; [assumption|]. apply IH; [assumption | lia].
+Qed.
+Lemma bitsMSB_app a b v : bitsMSB (a + b) v = bitsMSB a (N.shiftr v (N.of_nat b)) ++ bitsMSB b v.
+Proof.
+  induction a as [|a IH]; cbn; [reflexivity|]. rewrite IH. f_equal.
+  rewrite N.shiftr_spec'. f_equal. lia.
+Qed.
+Lemma bitsMSB_land_ones w v k : (N.of_nat w <= k) -> bitsMSB w (N.land v (N.ones k)) = bitsMSB w v.
+Proof.
+  intros H. apply bitsMSB_ext. intros i Hi. rewrite N.land_spec, N.ones_spec_low by lia. apply andb_true_r.
+Qed.
+Lemma bitsMSB_0 w : bitsMSB w 0 = repeat false w.
+Proof. induction w; cbn; [reflexivity|]. now rewrite IHw. Qed.
+Lemma bitsMSB_inj w x y : x < 2 ^ N.of_nat w -> y < 2 ^ N.of_nat w -> bitsMSB w x = bitsMSB w y -> x = y.
+Proof.
+  intros Hx Hy H. apply N.bits_inj; intro n.
+  destruct (N.lt_ge_cases n (N.of_nat w)) as [Hn|Hn].
+  - pose proof (bitsMSB_eq_bits w x y H (N.to_nat n)) as E. rewrite N2Nat.id in E. apply E. lia.
+  - rewrite (testbit_high x _ n Hx Hn), (testbit_high y _ n Hy Hn). reflexivity.
+Qed.
+
+Lemma app_inv_len {A} (a c b d : list A) : length a = length c -> a ++ b = c ++ d -> a = c /\ b = d.
+Proof.
+  revert c. induction a as [|x a IH]; intros [|y c] Hl H; cbn in *; try discriminate; [now split|].
+  injection H as -> H. injection Hl as Hl. destruct (IH c Hl H) as [-> ->]. now split.
+Qed.
+Lemma flatbits_inj w l1 : forall l2, (0 < w)%nat ->
+  Forall (fun x => x < 2 ^ N.of_nat w) l1 -> Forall (fun x => x < 2 ^ N.of_nat w) l2 ->
+  flatbits w l1 = flatbits w l2 -> l1 = l2.
+Proof.
+  induction l1 as [|x l1 IH]; intros [|y l2] Hw H1 H2 H.
+  - reflexivity.
+  - apply (f_equal (@length bool)) in H. rewrite !flatbits_length in H. cbn in H. lia.
+  - apply (f_equal (@length bool)) in H. rewrite !flatbits_length in H. cbn in H. lia.
+  - cbn in H. apply app_inv_len in H as [Hx Hr]; [|now rewrite !bitsMSB_length].
+    inversion H1; inversion H2; subst. f_equal; [now apply (bitsMSB_inj w) | now apply IH].
+Qed.
+
+Lemma ones_is_maxv t : N.shiftl 1 t - 1 = N.ones t.
+Proof. unfold N.ones. now rewrite N.sub_1_r. Qed.
+
+Definition bounded (t : N) (l : list N) : Prop := Forall (fun x => x < 2 ^ t) l.
+
+Lemma land_ones_lt a t : N.land a (N.ones t) < 2 ^ t.
+Proof. rewrite N.land_ones. apply N.mod_upper_bound. apply N.pow_nonzero. lia. Qed.
+
+Lemma cb_while_spec fuel : forall acc bits t ret, 0 < t -> (N.to_nat bits < fuel)%nat ->
+  exists bits' ret', cb_while fuel acc bits t (N.ones t) ret = Some (bits', ret')
+    /\ bits' < t
+    /\ flatbits (N.to_nat t) ret' ++ bitsMSB (N.to_nat bits') acc
+       = flatbits (N.to_nat t) ret ++ bitsMSB (N.to_nat bits) acc
+    /\ (bounded t ret -> bounded t ret').
+Proof.
+  induction fuel as [|fuel IH]; intros acc bits t ret Ht Hf; [lia|]. cbn [cb_while].
+  destruct (N.leb_spec t bits) as [Hle|Hlt].
+  - destruct (IH acc (bits - t) t (ret ++ [N.land (N.shiftr acc (bits - t)) (N.ones t)]) Ht ltac:(lia))
+      as (b' & r' & E & Hb & Hbits & Hbd).
+    exists b', r'. repeat split; try assumption.
+    + rewrite Hbits, flatbits_app. cbn [flatbits flat_map]. rewrite app_nil_r, <- app_assoc. f_equal.
+      rewrite bitsMSB_land_ones by lia.
+      replace (N.to_nat bits) with (N.to_nat t + N.to_nat (bits - t))%nat by lia.
+      rewrite bitsMSB_app. now rewrite N2Nat.id.
+    + intros Hr. apply Hbd. apply Forall_app. split; [assumption|]. constructor; [apply land_ones_lt | constructor].
+  - exists bits, ret. repeat split; try assumption; tauto.
+Qed.
+
+Lemma cb_loop_spec data : forall f t acc bits ret, 0 < f -> 0 < t -> bounded f data -> bits < t ->
+  exists acc' bits' ret',
+    cb_loop data f t (N.ones t) (N.ones (f + t - 1)) acc bits ret = Some (acc', bits', ret')
+    /\ bits' < t
+    /\ flatbits (N.to_nat t) ret' ++ bitsMSB (N.to_nat bits') acc'
+       = flatbits (N.to_nat t) ret ++ bitsMSB (N.to_nat bits) acc ++ flatbits (N.to_nat f) data
+    /\ (bounded t ret -> bounded t ret').
+Proof.
+  induction data as [|v data IH]; intros f t acc bits ret Hf Ht Hd Hb; cbn [cb_loop].
+  - exists acc, bits, ret. cbn [flatbits flat_map]. rewrite app_nil_r. repeat split; try assumption; tauto.
+  - inversion Hd as [|? ? Hv Hd']; subst.
+    rewrite N.shiftr_div_pow2, N.div_small by assumption. cbn [N.eqb negb].
+    set (acc1 := N.land (N.lor (N.shiftl acc f) v) (N.ones (f + t - 1))).
+    destruct (cb_while_spec (S (N.to_nat (bits + f))) acc1 (bits + f) t ret Ht ltac:(lia))
+      as (b2 & r2 & E & Hb2 & Hbits2 & Hbd2).
+    rewrite E.
+    destruct (IH f t acc1 b2 r2 Hf Ht Hd' Hb2) as (a3 & b3 & r3 & E3 & Hb3 & Hbits3 & Hbd3).
+    exists a3, b3, r3. repeat split; try assumption; [|tauto].
+    rewrite Hbits3, app_assoc, Hbits2. cbn [flatbits flat_map]. rewrite <- !app_assoc. f_equal.
+    fold (flatbits (N.to_nat f) data). rewrite app_assoc. f_equal.
+    replace (N.to_nat (bits + f)) with (N.to_nat bits + N.to_nat f)%nat by lia.
+    rewrite bitsMSB_app, N2Nat.id. f_equal.
+    + apply bitsMSB_ext. intros i Hi. rewrite N.shiftr_spec'. unfold acc1.
+      rewrite N.land_spec, N.ones_spec_low, andb_true_r by lia.
+      rewrite N.lor_spec, N.shiftl_spec_high' by lia.
+      rewrite (testbit_high v f) by (assumption || lia). rewrite orb_false_r. f_equal. lia.
+    + apply bitsMSB_ext. intros i Hi. unfold acc1.
+      rewrite N.land_spec, N.ones_spec_low, andb_true_r by lia.
+      rewrite N.lor_spec, N.shiftl_spec_low by lia. reflexivity.
+Qed.
+
+Lemma convertbits_unfold data f t pad :
+  convertbits data f t pad =
+  match cb_loop data f t (N.ones t) (N.ones (f + t - 1)) 0 0 [] with
+  | None => None
+  | Some (acc, bits, ret) =>
+    if pad then
+      if negb (bits =? 0) then Some (ret ++ [N.land (N.shiftl acc (t - bits)) (N.ones t)]) else Some ret
+    else if (f <=? bits) || negb (N.land (N.shiftl acc (t - bits)) (N.ones t) =? 0) then None
+    else Some ret
+  end.
+Proof. unfold convertbits. now rewrite !ones_is_maxv. Qed.
+
+(* pad=True: the output is the input bit string, zero-padded to a multiple of t *)
+Lemma convertbits_pad_spec data f t : 0 < f -> 0 < t -> bounded f data ->
+  exists ret p, convertbits data f t true = Some ret /\ bounded t ret /\ (p < N.to_nat t)%nat
+    /\ flatbits (N.to_nat t) ret = flatbits (N.to_nat f) data ++ repeat false p.
+Proof.
+  intros Hf Ht Hd. rewrite convertbits_unfold.
+  destruct (cb_loop_spec data f t 0 0 [] Hf Ht Hd Ht) as (acc & bits & ret & E & Hb & Hbits & Hbd).
+  rewrite E. cbn [flatbits flat_map bitsMSB app N.to_nat] in Hbits.
+  assert (Hr : bounded t ret) by (apply Hbd; constructor).
+  destruct (N.eqb_spec bits 0) as [->|Hnz]; cbn [negb].
+  - exists ret, 0%nat. repeat split; try assumption; [lia|]. cbn [N.to_nat bitsMSB repeat] in *.
+    now rewrite app_nil_r in *.
+  - exists (ret ++ [N.land (N.shiftl acc (t - bits)) (N.ones t)]), (N.to_nat (t - bits)). repeat split.
+    + apply Forall_app. split; [assumption|]. constructor; [apply land_ones_lt | constructor].
+    + lia.
+    + rewrite flatbits_app, <- Hbits. cbn [flatbits flat_map]. rewrite app_nil_r, <- app_assoc. f_equal.
+      rewrite bitsMSB_land_ones by lia.
+      replace (N.to_nat t) with (N.to_nat bits + N.to_nat (t - bits))%nat at 1 by lia.
+      rewrite bitsMSB_app, N2Nat.id. f_equal.
+      * apply bitsMSB_ext. intros i Hi. rewrite N.shiftr_spec', N.shiftl_spec_high' by lia. f_equal. lia.
+      * rewrite <- bitsMSB_0. apply bitsMSB_ext. intros i Hi. rewrite N.shiftl_spec_low by lia. now rewrite N.bits_0.
+Qed.
+
+Lemma divmod_unique (t a b c d : nat) : (b < t -> d < t -> t * a + b = t * c + d -> a = c /\ b = d)%nat.
+Proof. intros Hb Hd H. destruct (Nat.lt_trichotomy a c) as [L|[L|L]]; nia. Qed.
+
+(* pad=False: a bit string that is X's t-bit groups followed by fewer than min(f,t) zero bits decodes to X *)
+Lemma convertbits_nopad_spec data f t X p : 0 < f -> 0 < t -> bounded f data -> bounded t X ->
+  (p < N.to_nat t)%nat -> (p < N.to_nat f)%nat ->
+  flatbits (N.to_nat f) data = flatbits (N.to_nat t) X ++ repeat false p ->
+  convertbits data f t false = Some X.
+Proof.
+  intros Hf Ht Hd HX Hp Hpf HB. rewrite convertbits_unfold.
+  destruct (cb_loop_spec data f t 0 0 [] Hf Ht Hd Ht) as (acc & bits & ret & E & Hb & Hbits & Hbd).
+  rewrite E. cbn [flatbits flat_map bitsMSB app N.to_nat] in Hbits.
+  assert (Hr : bounded t ret) by (apply Hbd; constructor).
+  rewrite HB in Hbits.
+  assert (Hlen : length ret = length X /\ N.to_nat bits = p).
+  { apply (f_equal (@length bool)) in Hbits. rewrite !app_length, !flatbits_length, bitsMSB_length, repeat_length in Hbits.
+    apply (divmod_unique (N.to_nat t)); [lia | lia | exact Hbits]. }
+  destruct Hlen as [Hl Hbp].
+  apply app_inv_len in Hbits as [Hret Hz]; [|rewrite !flatbits_length; now rewrite Hl].
+  apply flatbits_inj in Hret; try assumption; try lia; try (now rewrite N2Nat.id). subst ret.
+  replace (f <=? bits) with false by (symmetry; apply N.leb_gt; lia). cbn [orb].
+  replace (N.land (N.shiftl acc (t - bits)) (N.ones t)) with 0; [reflexivity|].
+  symmetry. apply N.bits_inj; intro n. rewrite N.bits_0, N.land_spec.
+  destruct (N.lt_ge_cases n (t - bits)) as [Hn|Hn]; [now rewrite N.shiftl_spec_low|].
+  destruct (N.lt_ge_cases n t) as [Hnt|Hnt]; [|rewrite N.ones_spec_high by assumption; apply andb_false_r].
+  rewrite N.shiftl_spec_high' by assumption.
+  rewrite <- Hbp, <- bitsMSB_0 in Hz.
+  pose proof (bitsMSB_eq_bits _ _ _ Hz (N.to_nat (n - (t - bits))) ltac:(lia)) as Hbit.
+  rewrite N2Nat.id, N.bits_0 in Hbit. now rewrite Hbit.
+Qed.
+
+(* round trip 8 -> 5 (padded) -> 8 (unpadded), for every byte string *)
+Theorem convertbits_roundtrip bs : bounded 8 bs ->
+  exists d, convertbits bs 8 5 true = Some d /\ bounded 5 d /\ convertbits d 5 8 false = Some bs.
+Proof.
+  intros Hb. destruct (convertbits_pad_spec bs 8 5 ltac:(lia) ltac:(lia) Hb) as (d & p & E & Hd & Hp & HB).
+  exists d. repeat split; try assumption.
+  apply (convertbits_nopad_spec d 5 8 bs p); try assumption; lia.
+Qed.
+
+Lemma convertbits_pad_length bs d : bounded 8 bs -> convertbits bs 8 5 true = Some d ->
+  length d = ((8 * length bs + 4) / 5)%nat.
+Proof.
+  intros Hb E. destruct (convertbits_pad_spec bs 8 5 ltac:(lia) ltac:(lia) Hb) as (d' & p & E' & _ & Hp & HB).
+  rewrite E in E'. injection E' as <-. apply (f_equal (@length bool)) in HB.
+  rewrite app_length, !flatbits_length, repeat_length in HB.
+  change (N.to_nat 5) with 5%nat in *. change (N.to_nat 8) with 8%nat in *. lia.
+Qed.
+
+(* ================================================================= E. BIP-173 as polynomial arithmetic over GF(32)
+   Independent specification written from the BIP text:
+   GF(32) = GF(2)[a]/(a^5 + a^3 + 1), elements are 5-bit numbers (bit i = coefficient of a^i);
+   g(x) = x^6 + {29}x^5 + {22}x^4 + {20}x^3 + {21}x^2 + {29}x + {18};
+   the checksum residue of v_0..v_{n-1} is  (x^n + v_0 x^(n-1) + ... + v_{n-1})  mod g(x),
+   computed here by Horner's rule on the 6 coefficients [c5; c4; c3; c2; c1; c0] of the running remainder. *)
+Definition gf_double (x : N) : N :=                       (* x * a *)
+  let y := N.shiftl x 1 in if N.testbit y 5 then N.lxor y 41 else y.      (* 41 = a^5 + a^3 + 1 *)
+Definition gf_mul (x y : N) : N :=                        (* x * y, Horner over the bits of y *)
+  fold_left (fun acc i => N.lxor (gf_double acc) (if N.testbit y i then x else 0)) [4; 3; 2; 1; 0] 0.
+Definition g_low : list N := [29; 22; 20; 21; 29; 18].    (* x^6 = g_low(x)  (mod g), characteristic 2 *)
+(* remainder * x + v  (mod g) *)
+Definition gf_step (st : list N) (v : N) : list N :=
+  match st with
+  | c5 :: rest => zipxor (rest ++ [v]) (map (fun gk => gf_mul gk c5) g_low)
+  | [] => []
+  end.
+Definition gf_polymod (values : list N) : list N := fold_left gf_step values [0; 0; 0; 0; 0; 1].
+Definition pack (st : list N) : N := fold_left (fun acc c => acc * 32 + c) st 0.
+
+Lemma gf_table_fin :
+  forallb (fun c => (gfold c =? pack (map (fun gk => gf_mul gk c) g_low))
+                    && forallb (fun gk => gf_mul gk c <? 32) g_low) all32 = true.
+Proof. vm_compute. reflexivity. Qed.
+Lemma gf_table c : c < 32 ->
+  gfold c = pack (map (fun gk => gf_mul gk c) g_low) /\ Forall (fun v => v < 32) (map (fun gk => gf_mul gk c) g_low).
+Proof.
+  intros H. pose proof gf_table_fin as F. rewrite forallb_forall in F. specialize (F c (in_all32 c H)).
+  apply andb_true_iff in F as [F1 F2]. apply N.eqb_eq in F1. split; [assumption|].
+  rewrite forallb_forall in F2. apply Forall_forall. intros v Hv. apply in_map_iff in Hv as (gk & <- & Hg).
+  now apply N.ltb_lt, F2.
+Qed.
+
+Lemma pack_step_lxor x y c d : c < 32 -> d < 32 ->
+  N.lxor x y * 32 + N.lxor c d = N.lxor (x * 32 + c) (y * 32 + d).
+Proof.
+  intros Hc Hd. change 32 with (2 ^ 5) in *.
+  rewrite <- !lxor_shiftl_add by (assumption || now apply lxor_lt_pow2).
+  rewrite N.shiftl_lxor. apply lxor_swap4.
+Qed.
+Lemma pack_zipxor a : forall b x y, length a = length b ->
+  Forall (fun v => v < 32) a -> Forall (fun v => v < 32) b ->
+  fold_left (fun acc c => acc * 32 + c) (zipxor a b) (N.lxor x y)
+  = N.lxor (fold_left (fun acc c => acc * 32 + c) a x) (fold_left (fun acc c => acc * 32 + c) b y).
+Proof.
+  induction a as [|c a IH]; intros [|d b] x y Hl Ha Hb; try discriminate; cbn [zipxor fold_left]; [reflexivity|].
+  inversion Ha; inversion Hb; subst. rewrite pack_step_lxor by assumption. apply IH; [now injection Hl | assumption..].
+Qed.
+Lemma pack_zipxor0 a b : length a = length b ->
+  Forall (fun v => v < 32) a -> Forall (fun v => v < 32) b -> pack (zipxor a b) = N.lxor (pack a) (pack b).
+Proof. intros. unfold pack. now apply (pack_zipxor a b 0 0). Qed.
+Lemma zipxor_lt32 a : forall b, Forall (fun v => v < 32) a -> Forall (fun v => v < 32) b ->
+  Forall (fun v => v < 32) (zipxor a b).
+Proof.
+  induction a as [|c a IH]; intros [|d b] Ha Hb; cbn; try constructor.
+  - inversion Ha; inversion Hb; subst. now apply lxor_lt32.
+  - inversion Ha; inversion Hb; subst. now apply IH.
+Qed.
+
+Definition gf_state (st : list N) : Prop := length st = 6%nat /\ Forall (fun v => v < 32) st.
+
+Lemma gf_step_state st v : gf_state st -> v < 32 -> gf_state (gf_step st v).
+Proof.
+  intros [Hl Hs] Hv. destruct st as [|c5 [|c4 [|c3 [|c2 [|c1 [|c0 [|]]]]]]]; try discriminate.
+  repeat match goal with H : Forall _ (_ :: _) |- _ => apply Forall_cons_iff in H as [? H] end.
+  destruct (gf_table c5 ltac:(assumption)) as [_ Hg]. split; [reflexivity|].
+  unfold gf_step. apply zipxor_lt32; [|exact Hg]. cbn [app]. repeat (constructor; [assumption|]). constructor.
+Qed.
+
+Lemma gf_step_correct st v : gf_state st -> v < 32 -> polymod_step (pack st) v = pack (gf_step st v).
+Proof.
+  intros [Hl Hs] Hv. destruct st as [|c5 [|c4 [|c3 [|c2 [|c1 [|c0 [|]]]]]]]; try discriminate.
+  repeat match goal with H : Forall _ (_ :: _) |- _ => apply Forall_cons_iff in H as [? H] end.
+  destruct (gf_table c5 ltac:(assumption)) as [Hgf Hg].
+  unfold gf_step.
+  rewrite pack_zipxor0; [| reflexivity | cbn [app]; repeat (constructor; [assumption|]); constructor | exact Hg].
+  rewrite <- Hgf. unfold pack at 2.
+  rewrite polymod_step_L. unfold L.
+  set (R := (((c4 * 32 + c3) * 32 + c2) * 32 + c1) * 32 + c0).
+  assert (HR : R < 2 ^ 25) by (subst R; change (2 ^ 25) with 33554432; lia).
+  assert (Hp : pack [c5; c4; c3; c2; c1; c0] = c5 * 2 ^ 25 + R).
+  { unfold pack. cbn [fold_left]. subst R. change (2 ^ 25) with 33554432. lia. }
+  rewrite Hp. change 0x1FFFFFF with (N.ones 25).
+  rewrite N.land_ones, N.shiftr_div_pow2.
+  replace ((c5 * 2 ^ 25 + R) mod 2 ^ 25) with R.
+  2:{ rewrite N.add_comm, N.mod_add by (apply N.pow_nonzero; lia). now rewrite N.mod_small. }
+  replace ((c5 * 2 ^ 25 + R) / 2 ^ 25) with c5.
+  2:{ rewrite N.add_comm, N.div_add by (apply N.pow_nonzero; lia). rewrite N.div_small by assumption. reflexivity. }
+  cbn [app fold_left].
+  replace (0 * 32 + c4) with c4 by lia. fold R.
+  replace (R * 32 + v) with (N.lxor (N.shiftl R 5) v) by (rewrite (lxor_shiftl_add R v 5) by assumption; reflexivity).
+  rewrite !N.lxor_assoc. f_equal. apply N.lxor_comm.
+Qed.
+
+(* the code's bech32_polymod is the packed remainder of the BIP-173 polynomial modulo g over GF(32) *)
+Theorem polymod_is_gf32_remainder values : Forall (fun v => v < 32) values ->
+  bech32_polymod values = pack (gf_polymod values) /\ gf_state (gf_polymod values).
+Proof.
+  unfold bech32_polymod, gf_polymod. change 1 with (pack [0; 0; 0; 0; 0; 1]) at 1.
+  assert (H0 : gf_state [0; 0; 0; 0; 0; 1]) by (split; [reflexivity | repeat constructor]).
+  revert H0. generalize [0; 0; 0; 0; 0; 1] as st.
+  induction values as [|v values IH]; intros st Hst Hv; cbn [fold_left]; [now split|].
+  inversion Hv; subst. rewrite gf_step_correct by assumption. apply IH; [now apply gf_step_state | assumption].
+Qed.
+
+(* BIP-173 test vector "a12uel5l": residue 1, i.e. remainder [0;0;0;0;0;1] *)
+Example gf_polymod_test_vector :
+  gf_polymod (hrp_expand (codes "a") ++ map (fun x => find x CHARSET) (codes "2uel5l")) = [0; 0; 0; 0; 0; 1].
+Proof. vm_compute. reflexivity. Qed.
+
+(* ---------- packaging for props/C15.v ---------- *)
+Lemma single_error_table_stmt k e : (k < 120)%nat -> 0 < e < 32 ->
+  Lpow k e <> 0 /\ Lpow k e <> N.lxor BECH32_CONST BECH32M_CONST.
+Proof.
+  intros Hk He. pose proof (table_use k e Hk He) as T. unfold bad_delta in T.
+  apply orb_false_iff in T as [T0 T1]. now apply N.eqb_neq in T0, T1.
+Qed.
+Lemma single_subst_with_length s r p i c :
+  bech32_decode s = Some r -> rfind 49 s = Some p -> (p < i < length s)%nat ->
+  c <> 49 -> c <> nth i s 0 ->
+  (length s <= MAXLEN)%nat
+  /\ (bech32_decode (subst i c s) = None
+      \/ (lowerc c = lowerc (nth i s 0) /\ bech32_decode (subst i c s) = Some r)).
+Proof.
+  intros H Hp Hi Hc Hn. split; [now apply decode_Some_facts in H | now apply single_subst with p].
+Qed.
